@@ -46,10 +46,14 @@ def rnd_color(rng):
     return c
 
 
-def gen_population(rng):
+EDGE_NAMES = ['Bedside lamp ', ' Alcove strip', 'Candle\t', '\tx', ' ', ' both ', 'C:\\', 'Stairs up\\', '\\', 'a\\b', '\\Tube']
+
+
+def gen_population(rng, forced=()):
     del _POOL[:]
     n = rng.choice([0, 1, 1, 2, 3, 4, 6])
-    names = set()
+    names = set(forced)
+    n = max(n, len(names))
     while len(names) < n:
         if rng.random() < 0.35:
             nm = rng.choice(SPECIAL_NAMES)
@@ -263,7 +267,9 @@ def run(ctx):
     cases = []
     with PowerMemory():
         for i in range(n):
-            pop = gen_population(rng)
+            # names with white space at an edge, or ending in a backslash: first a population of each, then by chance
+            forced = [EDGE_NAMES[i]] if i < len(EDGE_NAMES) else (rng.sample(EDGE_NAMES, rng.randint(1, 3)) if rng.random() < 0.1 else [])
+            pop = gen_population(rng, forced)
             r = one_case(ctx, rng, pop)
             ctx.count()
             if pop:
